@@ -429,7 +429,38 @@ def _nth(fnode, call):
     return f'#{[i for i, c in enumerate(same) if c is call][0]}'
 
 
+def rule_items(ctx):
+    ctx.rule('C09.items', 'objects constructed afresh for every insertion into a TaskQueue (score entries, NRT clock tasks) have identity '
+                          'semantics: no __eq__/__hash__ override, otherwise two equal items count as one and the second add() removes the first')
+    queues = queue_attrs(ctx)
+    n = 0
+    seen = set()
+    for fi in ctx.repo.functions.values():
+        for c in U.calls(fi.node):
+            if U.method_name(c) == 'add' and isinstance(c.func, ast.Attribute) and len(c.args) == 2:
+                recv = norm(c.func.value).split('.')[-1]
+                if recv not in queues and recv != 'scheduler':
+                    continue
+                item = c.args[1]
+                cname = None
+                if isinstance(item, ast.Call):
+                    cname = norm(item.func).split('.')[-1]
+                elif isinstance(item, ast.Name) and item.id == 'self' and fi.cls is not None and recv == 'scheduler':
+                    cname = fi.cls.name       # ClockTask adds itself from its constructor
+                if cname is None or cname in seen:
+                    continue
+                for ci in ctx.repo.classes.values():
+                    if ci.name == cname and ci.module is fi.module:
+                        seen.add(cname)
+                        n += 1
+                        over = [f'{c_.name}.{m}' for c_ in ctx.repo.mro(ci) for m in ('__eq__', '__hash__') if m in c_.methods]
+                        ctx.ob('C09.items', f'{ci.fq}:identity-semantics', not over,
+                               f'{ci.qualname} is constructed per insertion but defines {over}: equal items are treated as a re-insertion of the same item', ci.node, ci.module)
+    ctx.require(n >= 2, 'C09.items', f'only {n} per-insertion item classes found')
+
+
 def run(ctx):
+    rule_items(ctx)
     rule_inv(ctx)
     rule_key(ctx)
     rule_own(ctx)
@@ -464,6 +495,9 @@ MUTANTS = [
          new="        return cls._scheduler.queue.peek()[0]"),
     dict(rule='C09.use', name='duration peeks an empty score', file='sc3/base/_oscinterface.py',
          old="        if self._scoreq.empty():\n            return None  # Uninitialized.\n        return self._scoreq.peek(False)[0] * clk", new="        return self._scoreq.peek(False)[0] * clk"),
+    dict(rule='C09.items', name='NRT clock tasks compare by task', file='sc3/base/clock.py',
+         old="    def _wakeup(self, time):\n        try:\n            _libsc3.main._update_logical_time(time)\n            beats = self.clock.secs2beats(time)",
+         new="    def __eq__(self, other):\n        return self.task is other.task\n\n    def __hash__(self):\n        return id(self.task)\n\n    def _wakeup(self, time):\n        try:\n            _libsc3.main._update_logical_time(time)\n            beats = self.clock.secs2beats(time)"),
 ]
 
 REPAIRS = []
